@@ -655,6 +655,8 @@ def check_block_state_cleared(run, rule):
 def check(run):
     from . import C08 as _C08
     _C08.check_tables_append(run, "R01.13")      # an independent writer may repeat a table value; indices must keep resolving
+    from .. import derived as _derived
+    _derived.report(run, "R01.15", ["CDNS::CdnsBlock", "CDNS::CdnsBlockRead", "CDNS::CdnsExporter", "CDNS::FilePreamble", "CDNS::BlockParameters"])
     from . import C03 as _C03
     # what the exporter re-arms a block with must still be the stored parameters: a pointer member into the preamble's own
     # vector dies when add_block_parameters() lets the vector grow
